@@ -10,14 +10,16 @@ ASSUME = [
 
 def run(tier: str, seed: int):
     if tier == 'quick':
-        cfgs = list(F.fam_limits(1, 4, batch=2, faults=False)) + list(F.fam_limits(1, 3, batch=3, faults=True, tnames=('TA', 'TB', 'TC', 'TD')))
-        serial = list(F.fam_limits(1, 3, batch=1))
-        rule = 'all DAG shapes n<=4 x per-node type in {unlimited, max_parallel 1, 2} (n<=3: also 3, with single faults/deaths, batch<=3), all nodes requested, every completion order'
-        e3c = list(F.fam_e3(F.fam_limits(1, 3, tnames=('TA', 'TB'), faults=True), workers=(1, 2, None)))
+        cfgs = (list(F.fam_limits(1, 4, batch=2, faults=False)) + list(F.fam_limits(1, 3, batch=3, faults=True, tnames=('TA', 'TB', 'TC', 'TD')))
+                + list(F.fam_limits_special(3)) + list(F.fam_limits_warm(3)))
+        serial = list(F.fam_limits(1, 3, batch=1)) + list(F.fam_limits_special(2)) + list(F.fam_limits_warm(2))
+        rule = 'all DAG shapes n<=4 x per-node type in {unlimited, max_parallel 1, 2} (n<=3: also 3, with single faults/deaths, batch<=3), all nodes requested, every completion order; n<=3 over specially declared limited types (cache=None + limit, single-call decorator spelling, two types with identical decorator arguments) with empty polls; limited types against a warm cache with/without bust_cache'
+        e3c = (list(F.fam_e3(F.fam_limits(1, 3, tnames=('TA', 'TB'), faults=True), workers=(1, 2, None)))
+               + list(F.fam_e3(list(F.fam_limits_special(3, tnames=('TK', 'TC1', 'TC2'))) + list(F.fam_limits_warm(3)), workers=(3,), cpu_count=3, backends=('fork',), liveness=False)))
     else:
         cfgs = (list(F.fam_limits(1, 4, batch=3, faults=True, tnames=('TA', 'TB', 'TC', 'TD')))
-                + list(F.fam_limits(5, 5, batch=2, tnames=('TB', 'TC'))))
-        serial = list(F.fam_limits(1, 4, batch=1))
+                + list(F.fam_limits(5, 5, batch=2, tnames=('TB', 'TC'))) + list(F.fam_limits_special(3, batch=3)) + list(F.fam_limits_warm(3, batch=3)))
+        serial = list(F.fam_limits(1, 4, batch=1)) + list(F.fam_limits_special(3)) + list(F.fam_limits_warm(3))
         rule = 'n<=4 x types {None,1,2,3} x faults, batch<=3; n=5 x {1,2}'
-        e3c = list(F.fam_e3(F.fam_limits(1, 3, tnames=('TA', 'TB', 'TC'), faults=True), workers=(1, 2, 3, None), cpu_count=3)) + list(F.fam_e3(F.fam_limits(4, 4, tnames=('TA', 'TB')), workers=(2, 3), cpu_count=3, liveness=False))
+        e3c = list(F.fam_e3(F.fam_limits(1, 3, tnames=('TA', 'TB', 'TC'), faults=True), workers=(1, 2, 3, None), cpu_count=3)) + list(F.fam_e3(F.fam_limits(4, 4, tnames=('TA', 'TB')), workers=(2, 3), cpu_count=3, liveness=False)) + list(F.fam_e3(list(F.fam_limits_special(3)) + list(F.fam_limits_warm(3)), workers=(2, 3), cpu_count=3))
     return run_e2_property('C04', tier, seed, cfgs, serial_configs=serial, e3_configs=e3c, barrier_cases=__import__('verif_lt.e4b', fromlist=['cases']).cases(tier), real_cases=list(F.fam_real(F.real_bases('limits') + F.real_bases('plain'), workers=(1, 2))), rule=rule, assumptions=ASSUME)
